@@ -803,6 +803,9 @@ def _process_checks(prop: str, ctx: Ctx, stats: Stats, cmds, only=None):
                 continue
             if ":nested-compound" in err or (err.startswith("err database") and has_nested_compound(m["tree"])):
                 kind += ":nested-compound"
+            if e == "EngineError" and attached_to_select(cmds, ctx.impl):
+                # the program attached a payload to a sql.Select and kept building on it (finding F17)
+                kind += ":payload-attached-to-select"
             out.append(Violation(prop, kind, f"{cmds[k]} then {cmds[j]}: {err}; processed tree {m['tree_text']}"))
             continue
         if sem is None or rows is None:
@@ -820,6 +823,18 @@ def _process_checks(prop: str, ctx: Ctx, stats: Stats, cmds, only=None):
             out.append(Violation(prop, kind,
                                  f"{cmds[k]}: executed {rows}, direct evaluation gives {want}; tree {src['tree_text']}"))
     return out
+
+
+def attached_to_select(cmds, impl) -> bool:
+    """Does the program attach a payload to a relation whose root is a sql.Select marker?"""
+    for k, c in enumerate(cmds):
+        if c.startswith("(attach ") and k < len(impl) and impl[k].startswith("ok"):
+            name = c[len("(attach "):].rstrip(")").strip()
+            for j in range(k):
+                toks = cmds[j].strip("()").split()
+                if len(toks) >= 2 and toks[1] == name and j < len(impl) and " (select" in impl[j].split("|")[0]:
+                    return True
+    return False
 
 
 def oracle_C07(cmds, impl, model, stats: Stats):
